@@ -234,11 +234,11 @@ func init() {
 					}
 				}
 			}
-			for i := 0; i < l.N(250, 4000); i++ {
+			for i := 0; i < l.N(250, 20000); i++ {
 				s := randTblSpec(rng, rng.Intn(3) == 0)
 				l.Add("ingest", c03Params{Producer: "ingest", T: s, Cfg: randIngCfg(rng, s.Rows)}, 0)
 			}
-			for i := 0; i < l.N(60, 800); i++ {
+			for i := 0; i < l.N(60, 4000); i++ {
 				s := randTblSpec(rng, true)
 				if s.Rows < 2 {
 					s.Rows = 2 + rng.Intn(600)
